@@ -22,6 +22,29 @@ import os
 EXEMPT_UNKNOWN = ("line", "warning", "error")
 
 
+def parse_c_int(text):
+    """value of a (possibly negated) C integer literal in any base / with any suffix, else None"""
+    t = text.strip()
+    neg = t.startswith("-")
+    t = t.lstrip("-").strip()
+    digits = t.rstrip("uUlL")
+    if not digits or not digits[0].isdigit():
+        return None
+    try:
+        low = digits.lower()
+        if low.startswith("0x"):
+            v = int(low[2:], 16)
+        elif low.startswith("0b"):
+            v = int(low[2:], 2)
+        elif len(low) > 1 and low[0] == "0":
+            v = int(low, 8)
+        else:
+            v = int(low, 10)
+    except ValueError:
+        return None
+    return -v if neg else v
+
+
 class Invalid(Exception):
     """The (program, configuration) pair is outside the domain (a conforming
     preprocessor would diagnose it)."""
@@ -208,8 +231,9 @@ class Model:
         body = body.strip()
         if body == "":
             return None
-        if body.lstrip("-").isdigit():
-            return int(body)
+        v = parse_c_int(body)
+        if v is not None:
+            return v
         if body.replace("_", "a").isalnum() and not body[0].isdigit():
             return self._resolve(body, macros, active + (name,))
         raise Invalid(f"unsupported macro body {body!r}")
